@@ -129,4 +129,17 @@ theorem fm_models_match_source_text :
     Generated.body_FMINDEX_build_ssa = SourceText.body_FMINDEX_build_ssa :=
   ⟨rfl, rfl, rfl, rfl, rfl, rfl, rfl, rfl, rfl, rfl, rfl, rfl⟩
 
+
+/-- The RPFC prefix search (`locateBoundaryBuckets`, `searchPrefix`, `searchDistinctPrefix`, `locatePrefix`) is
+modelled exactly (`CSD/Model/RPFC.lean`) and run by the driver on every exported RPFC object against the
+code's ranges and `Spec.prefixIds` (`rpfc-layer`); only its decoding step is proved
+(`RPFC.decodeString_spec`). -/
+theorem rpfc_prefix_models_match_source_text :
+    Generated.body_RPFC_decodeString = SourceText.body_RPFC_decodeString ∧
+    Generated.body_RPFC_locatePrefix = SourceText.body_RPFC_locatePrefix ∧
+    Generated.body_RPFC_locateBoundaryBuckets = SourceText.body_RPFC_locateBoundaryBuckets ∧
+    Generated.body_RPFC_searchPrefix = SourceText.body_RPFC_searchPrefix ∧
+    Generated.body_RPFC_searchDistinctPrefix = SourceText.body_RPFC_searchDistinctPrefix :=
+  ⟨rfl, rfl, rfl, rfl, rfl⟩
+
 end CSD.Props.C04
